@@ -475,7 +475,8 @@ def run(rep):
     has_saved = z3.BitVec('has_saved_env', 64)
     has_mod = z3.BitVec('has_module_env', 64)
     st.assume(z3.ULT(has_saved, 2))
-    st.assume(has_mod == has_saved)      # prepare() sets both or neither
+    st.assume(z3.ULT(has_mod, 2))
+    st.assume(z3.Implies(has_mod == 1, has_saved == 1))      # a module scope is only installed together with a saved start environment (scripts save one too)
     fields = {
         F['active_vm']: EnumV('Option<Box<BytecodeVM>>', 1, {1: {0: ex.fresh(st, 'Box<BytecodeVM>', '$vmbox')}}),
         F['active_saved_env']: EnumV('Option<Gc<JsObject>>', has_saved, {1: {0: saved_tok}}),
